@@ -209,7 +209,7 @@ pub fn enumerate_seqs(ctx: &Ctx, sub: &str, k: usize, f: impl Fn(&[u8]) -> (Judg
 pub fn run_c04(ctx: &Ctx) {
     ctx.set_rule("(a) proptest-generated wire trees from the RFC 8010 grammar (any group order, repeated/empty groups, every tag 0x10-0x4a with a syntactically valid body, mixed sets, multi-valued members, sets of collections, nesting to depth 6, invalid UTF-8, boundary lengths), encoded by the reference encoder, parsed by both parsers and compared with the harness's own interpretation; at up to 24 tag positions per tree a byte from {0x00,0x06-0x0f,0x4b-0xff} is substituted and must be rejected (each substitution = one evaluation). (b) every sequence of up to k tokens over a 16-token alphabet (quick k=4, thorough k=6): reference-accepted ones must be read as interpreted, a bad tag before the end tag must be rejected. Non-trivial = tree uses a form the library's encoder never emits (non-operation first group, repeated/empty group, out-of-band/unregistered tag, mixed set, multi-valued member, set of collections, nested collection, invalid UTF-8, boundary length) or a reference-accepted token sequence; distinct by hash.");
     ctx.assume("duplicate attribute/member names, non-empty out-of-band values and memberAttrName as an attribute-level value are not asserted (RFC forbids them / unspecified)");
-    let (shards, per) = ctx.tier.pick((16, 1500), (16, 40000));
+    let (shards, per) = ctx.tier.pick((16, 4000), (16, 80000));
     run_prop(ctx, "wire-trees", shards, per, || (gen::w_msg(6), any::<u64>()).prop_map(|(w, salt)| C04Case { w, salt }), judge_c04, c04_json);
     let k = ctx.tier.pick(4, 6);
     enumerate_seqs(ctx, "token-seqs", k, judge_c04_seq, "ref-accepts");
@@ -301,11 +301,6 @@ pub fn input_strategy() -> BoxedStrategy<Input> {
         1 => raw,
     ]
     .boxed()
-}
-
-/// replay form of any input: just the bytes
-pub fn input_json(i: &Input) -> Value {
-    json!({"class": i.class(), "bytes": hex(&i.bytes())})
 }
 
 fn sched_strategy() -> BoxedStrategy<(u8, u16, u64, u64)> {
@@ -788,7 +783,7 @@ pub fn judge_c07(w: &WMsg, p: &Probe) -> Judge {
 pub fn run_c07(ctx: &Ctx) {
     ctx.set_rule("fault enumeration: for each proptest-generated well-formed message (small and general wire trees incl. collections, with-language values, boundary lengths) EVERY cut point k in [0,L) and EVERY (offset k in [0,L), kind) single fault for kinds ConnectionReset, ConnectionAborted, TimedOut, BrokenPipe, UnexpectedEof, PermissionDenied, Other, WouldBlock is injected (blocking whole/3-byte reads and async); cut => Err, fault => Err(IoError(kind)). For L>600 offsets are sampled (600 evenly + last 40). Each parse is one evaluation. Non-trivial = position strictly inside a length field, name or value; distinct by (message, position, kind).");
     ctx.assume("a persistent Interrupted fault is excluded: std::io::Read::read_exact retries it forever by contract");
-    let (shards, per) = ctx.tier.pick((16, 20), (16, 700));
+    let (shards, per) = ctx.tier.pick((16, 40), (16, 900));
     run_prop(ctx, "cuts-and-faults", shards, per, || prop_oneof![4 => gen::w_msg_small(), 1 => gen::w_msg(3)], judge_c07, wmsg_json);
     ctx.set_exhaustive(false);
     ctx.extra("exhaustive_subdomain", json!("per message with L<=600: all cut points and all (offset, kind) faults"));
